@@ -154,7 +154,10 @@ def main(argv=None):
 
     left_out = []
     if args.tier == "quick":
-        jobs, left, est = registry.quick_selection(pid, seed)
+        changed = census.changed_functions()
+        if changed:
+            print(f"  /repo differs from its HEAD in (or in callees of): {', '.join(sorted(changed))[:400]} - the secondary queries encoding these come first", flush=True)
+        jobs, left, est = registry.quick_selection(pid, seed, changed=changed)
         left_out = ["%s[%s]" % (h["name"], cfg) for h, cfg in left]
     else:
         jobs = [(h, cfg) for h in registry.by_property(pid, args.tier) for cfg in h["cfgs"]]
